@@ -104,7 +104,8 @@ Proof. exact closed_once_bytes. Qed.
 Print Assumptions consumer_connectionLost_once_with_classified_reason.
 
 (** link to the response grammar (ResponseSpec.v, independent of the parser): ANY well-formed
-    response - interim 1xx responses, any status line, any header lines other than the framing
+    response - interim 1xx responses carrying ANY header lines (framing headers included: they are
+    discarded with the interim response), any status line, any header lines other than the framing
     ones, body absent / Content-Length / chunked (any chunking) / close-delimited - followed by
     ANY bytes is read as exactly the intended events ... *)
 Theorem well_formed_response_read_back : forall hm r extra,
